@@ -26,8 +26,9 @@ MIRROR = {
             'PauliPolynomial.reduce leaves its receiver unchanged', 'pauli_identity / pauli_zero'],
     'C17': ['StabilizerState.copy', 'CliffordCircuit.copy.forward', 'CliffordCircuit.copy.backward', 'CliffordLayer.copy(compiled).forward',
             'CliffordLayer.copy(compiled).backward', 'PauliPolynomial.reduce leaves its receiver unchanged', 'diagonalize(StabilizerState)',
-            'Pauli.copy (taken from a list that is rewritten afterwards)', 'CliffordCircuit.copy (extended afterwards)'],
-    'C18': ['front', 'condense', 'pauli_is_onsite', 'pauli_diagonalize1', 'pauli_diagonalize2', 'diagonalize(Pauli)', 'diagonalize(StabilizerState)'],
+            'Pauli.copy (taken from a list that is rewritten afterwards)', 'CliffordCircuit.copy (extended afterwards)',
+            'StabilizerState.expect leaves its argument unchanged'],
+    'C18': ['front', 'condense', 'pauli_is_onsite', 'pauli_diagonalize1', 'pauli_diagonalize2', 'diagonalize(Pauli)', 'diagonalize(StabilizerState)', 'CliffordGate.forward(single Pauli)'],
     'C20': ['pauli()', 'repr', 'pauli_tokenize', 'PauliList.__getitem__', 'PauliList.__rmul__', 'PauliList.__truediv__', 'PauliList.__neg__',
             'repr(PauliList)', 'PauliList.tokenize', 'pauli(repr(P))', 'paulis(repr lines)', 'weight', 'Pauli.as_list'],
 }
